@@ -201,8 +201,15 @@ func (c *Ctx) lexOut(out []byte) (evs []trace.Ev, filtered string, other []strin
 			c.Cov.form(t.Raw)
 		case t.K == lexer.Text:
 			gr := uniseg.NewGraphemes(t.S)
+			// consecutive graphemes share one event (a run takes the same pen)
+			var ids []int
 			for gr.Next() {
-				evs = append(evs, trace.Ev{"ev": "g", "g": c.G.ID(gr.Str())})
+				ids = append(ids, c.G.ID(gr.Str()))
+			}
+			if n := len(evs); n > 0 && evs[n-1]["ev"] == "gs" {
+				evs[n-1]["gs"] = append(evs[n-1]["gs"].([]int), ids...)
+			} else if len(ids) > 0 {
+				evs = append(evs, trace.Ev{"ev": "gs", "gs": ids})
 			}
 			b.WriteString(t.S)
 		case t.K == lexer.C0 && t.B == 0:
